@@ -24,11 +24,18 @@ RULE = ("every stream of the committed corpus (corpus/: the 25 legacy .drc files
         '(versions 1.0 .. 2.2, integer and float method; tools/freeze_kdlegacy.py), 260 split-rich Edgebreaker '
         'streams (tools/freeze_splitrich.py) and the 427 frozen encoder streams; legacy kd-tree payloads re-laid-'
         'out for every version 1.0 .. 2.2 with rewritten descriptor blocks, and their corruptions, against the '
-        'Lean decoder model (props/kdlegacy.py)')
-THEOREM_BACKED = ("unknown_version_rejected / newer_version_stream_rejected (version gate of the decoder model, whatever "
-                  "follows the header), gate_table_mesh / gate_table_point_cloud (decision tables), "
-                  "format_constants_frozen* and version_gates_frozen (constants regenerated from the source == frozen copy)")
-CORRESPONDENCE_ONLY = ('nothing in the corpus: every one of the 751 streams (bitstreams 1.0 .. 2.3, sequential, kd-tree of every'
+        'Lean decoder model (props/kdlegacy.py)'
+        '; plus 40 frozen re-laid-out legacy mesh streams (791 streams in all) and the legacy re-layout '
+        'transcoder props/meshlegacy.py: 2.2 sequential / Edgebreaker meshes of the real encoder re-laid-out '
+        'field by field as 2.1 .. 1.0 (self-check: the real decoder must return the geometry of the 2.2 '
+        'original), against the Lean decoder model, with corruptions')
+THEOREM_BACKED = ('unknown_version_rejected / newer_version_stream_rejected (version gate of the decoder model, whatever '
+                  'follows the header), gate_table_mesh / gate_table_point_cloud (decision tables), '
+                  'format_constants_frozen* and version_gates_frozen (constants regenerated from the source == frozen '
+                  'copy); source_seqDecIndexWidth_is_model / source_seqEncIndexWidth_is_model (the version-gated '
+                  "index-width chains of the sequential mesh coders, translated from clang's AST on every run, are the "
+                  "model's)")
+CORRESPONDENCE_ONLY = ('nothing in the corpus: every one of the 791 streams (bitstreams 1.0 .. 2.3, sequential, kd-tree of every'
                        ' version, Edgebreaker) is decoded by the Lean decoder model and agrees token for token with the real '
                        'decoder (evidence.input_distribution `model:decoded`; a `model:unsupported_*` tag would name a branch '
                        'that is checked against the frozen decode only). That the model reads OLD bytes the way the decoder of '
